@@ -112,7 +112,7 @@ func runC06(r *Result, d *drv.Driver, tier string, seed int64, replay string) {
 		nSeq = 600
 	}
 	r.Rule = "sequences of 1..6 valid messages (requests and responses mixed, small and large) written back to back; the concatenation is decoded by successive Decode calls on ONE Decoder, followed by one more call that must report io.EOF: " +
-		"exhaustively for every two-way split offset, and one byte at a time, in random chunks with zero-length reads, and with the last data returned together with EOF; through a buffered source (plain io.Reader) and an unbuffered one (io.ByteScanner, where the exact bytes consumed per message are compared). " +
+		"exhaustively for every two-way split offset, and one byte at a time, in random chunks with zero-length reads, and with the last data returned together with EOF (random chunk sizes, and every read request satisfied in full); every fifth stream ends with a message whose last item is an unpadded 24..64-byte string; through a buffered source (plain io.Reader) and an unbuffered one (io.ByteScanner, where the exact bytes consumed per message are compared). " +
 		"Compared with the model's stream decoder and with the values originally encoded. distinct = distinct (sequence, delivery); non-trivial = more than one message"
 	types := gen.StructTypes()
 	g := gen.New(seed)
@@ -125,12 +125,25 @@ func runC06(r *Result, d *drv.Driver, tier string, seed int64, replay string) {
 		var ttypes []reflect.Type
 		var want []string
 		g.Big = i%7 == 3
+		// every fifth stream ends with a message whose last item is a string that needs no padding (24..64 bytes)
+		var tail interface{}
+		if i%5 == 1 {
+			uid := strings.Repeat("0123456789abcdef", 4)[:[]int{24, 32, 40, 64}[rng.Intn(4)]]
+			payload := []interface{}{kmip.DestroyRequest{UniqueIdentifier: uid}, kmip.ActivateRequest{UniqueIdentifier: uid}, kmip.GetRequest{UniqueIdentifier: uid}}[rng.Intn(3)]
+			op := map[string]kmip.Enum{"DestroyRequest": kmip.OPERATION_DESTROY, "ActivateRequest": kmip.OPERATION_ACTIVATE, "GetRequest": kmip.OPERATION_GET}[reflect.TypeOf(payload).Name()]
+			tail = &kmip.Request{Header: kmip.RequestHeader{Version: kmip.ProtocolVersion{Major: 1, Minor: 4}, BatchCount: 1},
+				BatchItems: []kmip.RequestBatchItem{{Operation: op, RequestPayload: payload}}}
+		}
 		for j := 0; j < k; j++ {
 			name := []string{"Request", "Response"}[rng.Intn(2)]
 			if rng.Intn(5) == 0 {
 				name = []string{"RequestHeader", "TemplateAttribute", "KeyBlock", "Attribute"}[rng.Intn(4)]
 			}
 			p := g.NewStruct(types[name])
+			if tail != nil && j == k-1 {
+				name = "Request"
+				p = reflect.ValueOf(tail)
+			}
 			out, written, _ := realEncode(p.Interface())
 			if !strings.HasPrefix(out, "ok") || len(written) == 0 {
 				j--
@@ -207,7 +220,7 @@ func runC06(r *Result, d *drv.Driver, tier string, seed int64, replay string) {
 			check(fmt.Sprintf("split-unbuffered@%d", cut), streamDecode(kmip.NewDecoder(splitScan{s2}), ttypes, func() int { return s2.pulled }, true), true)
 			r.Stats["delivery:split"] += 2
 		}
-		for _, mode := range []string{"onebyte", "chunks", "dataeof"} {
+		for _, mode := range []string{"onebyte", "chunks", "dataeof", "dataeof-full"} {
 			for _, unb := range []bool{false, true} {
 				s := &src{data: data, mode: mode, fin: io.EOF, r: rng}
 				var dec *kmip.Decoder
